@@ -29,7 +29,13 @@ RULE = ('generated dense KS/phy source directories (tens of spikes, 3-8 channels
         'model equality only: cluster id 65536, sparse template storage; InCompress = compress_spikes_dtypes called on a bare '
         'directory (ids around 65535/65536, negative ids, (n,1), labels templates/clusters, decoy names, a missing file). '
         'Non-trivial = conversion ran to completion (or was refused for the same directory; InBeyond: any outcome; '
-        'InCompress: compressed or StopIteration); distinct = distinct abstract input.')
+        'InCompress: compressed or StopIteration); distinct = distinct abstract input. '
+        'Stage 5: 45 % of the conversion cases carry 1-5 bystander files (non-array regular files the export has no business with) whose '
+        'names are close to temp_wh.dat, params.py, cluster_KSLabel.tsv or the raw-data names: infix between stem and extension, prefix, '
+        'trailing suffix, other extension, other letter case, one character changed/dropped/added, glob metacharacters, plain other '
+        '*.dat / *.bin / cluster_*.tsv / spikes.* names; 40 % of the raw-data cases have their .dat/.bin files under another name '
+        '(temp_wh_session1.dat, temp_wh2.dat, my data.dat, ..., or temp_wh.dat itself = the one file that may be deleted); 11 forced '
+        'instances run first.')
 EXHAUSTIVE = {'quick': False, 'thorough': False}
 CLAUSES = {
     1: 'observed output / source directory differs from the Coq model PV.C13.Model.convert (file set, dtypes, shapes, determined values); '
@@ -121,6 +127,16 @@ CORPUS_BEYOND = [dict(big_top='over', label='probe00', features='no'),
 CORPUS_FORCE = [dict(force=True, raw=False), dict(force=True, raw=True, temp_wh=True, label='probe00', old_subset=False),
                 dict(force=True, raw=False, old_subset=True, drift=True, labels=True, cluster_probes=True, kslabel=True),
                 dict(force=True, target='fresh_empty', vec2d=True), dict(force=True, target='same_dot')]
+# stage 5 (seeded change C13-m11: FILE_DELETES as a glob pattern): bystander files close to temp_wh.dat / params.py /
+# cluster_KSLabel.tsv / the raw-data names, with and without temp_wh.dat itself; raw data under a name close to temp_wh.dat
+CORPUS_BYSTANDERS = [
+    dict(bystanders='near_delete', temp_wh=True, raw=True, dat_name='temp_wh_session1', label='probe00'),
+    dict(bystanders='near_delete', temp_wh=False, raw=False), dict(bystanders='near_delete', temp_wh=True, raw=False, params_py=False),
+    dict(bystanders='near_copy', kslabel=True, raw=False, label='probe00'), dict(bystanders='near_copy', kslabel=False, params_py=False, raw=True),
+    dict(bystanders='near_raw', raw=True, dat_name='near'), dict(bystanders='mixed', raw=True, dat_name='temp_wh', temp_wh=False),
+    dict(bystanders='mixed', raw=True, dat_name='near', temp_wh=True, force=True), dict(bystanders='plain', raw=False, temp_wh=True),
+    dict(bystanders='near_delete', target='same_dotdot', temp_wh=True), dict(bystanders='mixed', target='fresh_symlink', raw=True, dat_name='near'),
+]
 COMPRESS = [dict(ids='edge', label='', missing='none'), dict(ids='edge', label='probe00', missing='none', vec2d=True),
             dict(ids='over', label='', missing='none'), dict(ids='over', label='probe00', missing='none'),
             dict(ids='neg', label='', missing='none'), dict(ids='small', label='templates', missing='none'),
@@ -205,7 +221,22 @@ def generate(tier, rng):
             cases.append({'kind': 'compress', 'inp': D13.gen_compress(rng3, **force)})
     for _ in range({'quick': 10, 'thorough': 150, 'search': 40}[tier]):
         cases.append({'kind': 'compress', 'inp': D13.gen_compress(rng3)})
-    return cases
+    # ---- stage 5 additions (again a separate stream): the frame clause quantifies over EVERY pre-existing file of the source
+    # directory, so a share of all the cases above gets bystander files whose names are close to the names the export deletes /
+    # copies / reads, and raw-data files under other names than raw<j>.dat; forced instances run first ----
+    rng5 = random.Random('c13-stage5-%s' % tier)
+    for c in cases:
+        if c['kind'] == 'compress':
+            continue
+        if rng5.random() < 0.45:
+            D13.add_bystanders(c['inp'], rng5, rng5.choice(['mixed', 'mixed', 'near_delete', 'near_copy', 'near_raw', 'plain']))
+        if c['inp']['ds'].get('raw') and rng5.random() < 0.4:
+            D13.set_dat_names(c['inp'], rng5, rng5.choice(['near', 'near', 'near', 'temp_wh']))
+    first = []
+    for force in CORPUS_BYSTANDERS:
+        for _ in range(reps):
+            first.append({'kind': 'convert', 'inp': D13.gen(rng5, **force)})
+    return first + cases
 
 
 # ---- implementation ------------------------------------------------------------------------------------
@@ -352,7 +383,7 @@ def run_case(case):
     m = m2 = None
     try:
         src = os.path.join(d, 'src')
-        kw = D.materialise(ds, src)
+        kw = D13.rename_raw(inp, src, D.materialise(ds, src))
         if not inp['params_py']:
             os.remove(os.path.join(src, 'params.py'))
         t = inp['target']
@@ -524,8 +555,11 @@ def dist(case, obs):
         out = ['outcome=' + obs[1]['outcome'] + ((':' + obs[1]['info'].split(':')[0]) if obs[1]['outcome'] == 'crash' else '')]
     for k in ('raw', 'features', 'curated', 'probes', 'vec2d', 'label', 'factor', 'temp_wh', 'kslabel', 'params_py',
               'last_template_empty', 'other_template_empty', 'target', 'id_dtype', 'clu_dtype', 'cm_dtype', 'time_dtype', 'old_subset',
-              'cluster_probes', 'drift', 'labels', 'big_ids', 'big_top', 'sparse', 'force'):
+              'cluster_probes', 'drift', 'labels', 'big_ids', 'big_top', 'sparse', 'force', 'bystanders', 'dat_name'):
         out.append('%s=%s' % (k, o.get(k)))
+    out.append('n_bystanders=%d' % len(o.get('bystander_names', [])))
+    if 'temp_wh.dat' in o.get('dat_names', []):
+        out.append('raw data = temp_wh.dat')
     out.append('kind=' + case['kind'])
     out.append('n_channels=%s' % ('<12' if o['n_channels'] < 12 else '12' if o['n_channels'] == 12 else '>12'))
     out.append('n_spikes=%d' % o['n_spikes'])
@@ -591,6 +625,11 @@ def shrink(case):
         yield variant(lambda c, name=name: c['ds']['text'].pop(name))
     if ds.get('bin'):
         yield variant(lambda c: c['ds'].__setitem__('bin', {}))
+        if len(ds['bin']) > 1:
+            for name in list(ds['bin']):
+                yield variant(lambda c, name=name: c['ds']['bin'].pop(name))
+    if inp.get('dat_names'):
+        yield variant(lambda c: c.pop('dat_names'))
     if not inp['params_py']:
         yield variant(lambda c: c.__setitem__('params_py', True))
     # un-curate
@@ -618,6 +657,7 @@ def repro(case):
             "from phylib.io.model import TemplateModel\nfrom phylib.io.alf import EphysAlfCreator\n"
             "inp = %r\n"
             "d = os.path.realpath(tempfile.mkdtemp()); src = os.path.join(d, 'src'); kw = D.materialise(inp['ds'], src)\n"
+            "from vt import datasets_c13 as D13; kw = D13.rename_raw(inp, src, kw)    # the raw-data files under the names inp['dat_names'], if any\n"
             "if not inp['params_py']: os.remove(os.path.join(src, 'params.py'))\n"
             "c13._prepare_source(inp['target'], src)        # <src>/sub or <src>/self for those spellings of the target\n"
             "m = TemplateModel(**kw); before = D.listing(src); cwd = os.getcwd()\n"
